@@ -37,6 +37,7 @@ class Gen:
         self.nfrag = 1
         self.rawbase = {}        # written name -> (frag idx, base name)
         self.raws = []           # (frag, written name, base) in definition order
+        self.lt_raws = set()     # RAW probes with a one-character type (accepted only where parsing is not pedantic or the version is < 8)
 
     def name(self):
         self.nname += 1
@@ -48,6 +49,10 @@ class Gen:
         epoch = 0
         myraws = []
         n = rng.randint(2, 7)
+        if depth > 0 and self.mode == "A" and rng.random() < 0.4:
+            # an included fragment that declares its version first (as every fragment the library writes does)
+            v = rng.choice([10, 10, 9, 8])
+            lines.append("/VERSION %d" % v); toks.append("V:%d" % v)
         for _ in range(n):
             r = rng.random()
             if r < 0.30:
@@ -73,6 +78,14 @@ class Gen:
                 ns = rng.choice(["", "n1", "n2", "n3.n4", ".n5", "n6."])
                 lines.append('/NAMESPACE %s' % (ns if ns else '""')); toks.append("N:" + hexn(ns))
                 epoch += 1
+            elif r < 0.47 and self.mode == "A":
+                # syntax that pedantic parsing accepts only BEFORE a version: a one-character RAW type (_GD_RawType:
+                # !pedantic || standards < 8).  Shows whether a fragment is parsed pedantically at this point, which the
+                # ">= version" probes cannot (they all pass at Version 10) — e.g. after an include whose /VERSION must not leak.
+                nm = self.name()
+                lines.append("%s RAW c 1" % nm); toks.append("W:%s:108" % hexn(nm))
+                self.raws.append((idx, nm, nm))
+                self.lt_raws.add(nm)          # has a data file only where the model accepts the line
             elif r < 0.60:
                 nm = self.name()
                 if self.mode == "B":
@@ -118,6 +131,12 @@ class Gen:
                 toks.append("I:%s:%s:%s" % (hexn(ns), hexn(px), hexn(sx)))
                 toks += ct
                 toks.append("E")
+                if self.mode == "A" and rng.random() < 0.6:
+                    # what the rest of the parent is parsed as, straight after the include
+                    nm = self.name()
+                    lines.append("%s RAW c 1" % nm); toks.append("W:%s:108" % hexn(nm))
+                    self.raws.append((idx, nm, nm))
+                    self.lt_raws.add(nm)
         return lines, toks
 
 
@@ -324,7 +343,7 @@ def run(ctx):
             rawmap = dict(x.split("=", 1) for x in streams.strip_rl(o_raw)[0].split()[1:])
             EXT = {0: "", 1: "", 2: ".txt", 3: ".gz", 4: ".sie"}
             # the data file is named by the field name as written in the fragment (no affix, no root namespace), plus the encoding's extension
-            expected = sorted(("/" + g.fragdir[fi] + w + EXT[mfr[fi]["enc"]]) if mfr[fi]["enc"] else "?" for (fi, w, base) in g.raws)   # no file name while the encoding is undetermined
+            expected = sorted(("/" + g.fragdir[fi] + w + EXT[mfr[fi]["enc"]]) if mfr[fi]["enc"] else "?" for (fi, w, base) in g.raws if w not in g.lt_raws or w in mnames)   # no file name while the encoding is undetermined
             gotp = sorted(rawmap.values())
             stats["subdir_raw"] += sum(1 for e in expected if e.count("/") > 1)
             if expected != gotp:
